@@ -123,6 +123,7 @@ func (g *Gen) GenLemma(l *Lemma, sf *SpecFile, pkg *types.Package) (vc *FnVC, er
 		}
 	}()
 	v.curGuard = True
+	resetTermTables()
 	v.entry = &State{vars: map[string]*Term{}, heaps: map[string]*Term{}}
 	v.entry.alloc = v.declare("alloc@0", SInt)
 	v.assume(True, Ge(v.entry.alloc, IntLit(1)), "alloc")
